@@ -512,21 +512,25 @@ Definition res_pc (p : pres) : opc := match p with Cont i _ => i_pc i | Ret _ _ 
 Definition res_dqf (p : pres) (d : flags) : flags := match p with Cont i _ => i_dqf i | Ret _ _ _ => f0 end.
 
 Definition custom (k : kind) : bool := k_direct k && negb (k_timer k).
+(* structure of the registration state *)
 Definition Sinv (k : kind) (s : src) : Prop :=
-  (deleted (fl s) = true -> kreg s = false /\ waiter (fl s) = false /\ needs_event (fl s) = false /\
-                            (custom k = false -> installed s = true /\ registered s = false)) /\
+  (deleted (fl s) = true -> registered s = false /\ kreg s = false /\ installed s = true /\ waiter (fl s) = false /\
+                            needs_event (fl s) = false) /\
   (kreg s = true -> du_wlh s = true) /\
   (du_armed s = true \/ du_nd s = true -> du_wlh s = true) /\
-  (du_wlh s = true -> installed s = true).
+  (du_wlh s = true -> installed s = true) /\
+  (du_nd s = true -> kreg s = true) /\
+  (k_timer k = true -> du_nd s = false).
 
 Definition in_cd (p : opc) : bool := match p with OCD1 | OCD2 | OCD3 => true | _ => false end.
 Definition past_install (p : opc) : bool := match p with OA2 | OA3 | OA4 | OP1 | OLatch | OInEh | OP2 | OP3 => true | _ => false end.
 (* what the lock owner knows at its program point *)
 Definition Pinv (k : kind) (s : src) (p : opc) : Prop :=
-  Sinv k s /\ (past_install p = true -> installed s = true) /\ (in_cd p = true -> custom k = true).
+  Sinv k s /\ (past_install p = true -> installed s = true).
 
 Definition res_dqf' (p : pres) : flags := match p with Cont i _ => i_dqf i | Ret _ _ _ => f0 end.
 Definition is_fin (a : action) : bool := match a with AFinalize _ _ => true | _ => false end.
+Definition is_fin_twice (a : action) : bool := match a with AFinalize _ true => true | _ => false end.
 
 
 (* ------------------------------------------------------------------ per-thread monitor for recorded traces
